@@ -785,6 +785,20 @@ DIRECTED = {
         "t.go": 'package main\n\ntype Host string\n\ntype Config struct{ Host Host }\n\nfunc ProvideHost() Host { return "h" }\n\ntype App struct {\n\tC *Config\n\tH Host\n}\n\nfunc NewApp(c *Config, h Host) *App { return &App{c, h} }\n',
         "main.go": 'package main\n\nfunc main() { a := InitApp(); println("[" + string(a.C.Host) + "]", string(a.H)) }\n',
         "wire.go": '//go:build wireinject\n\npackage main\n\nimport "github.com/google/wire"\n\nfunc InitApp() *App {\n\twire.Build(ProvideHost, wire.Struct(new(Config)), NewApp)\n\treturn nil\n}\n'},
+    # expressions the transformer writes itself (the constructor of a Bind, the constructor literal of a Struct) carry the
+    # OUTPUT file's import names; two packages of one name, one of them imported under its own name (repaired)
+    "bind_constructor_alias_clash": {
+        "api1/a.go": 'package v1\n\ntype User struct{ N string }\n\nfunc NewUser() *User { return &User{N: "u"} }\n',
+        "api2/a.go": 'package v1\n\ntype Impl struct{ S string }\n\nfunc (i *Impl) Do() string { return i.S }\nfunc NewImpl() *Impl     { return &Impl{S: "impl"} }\n',
+        "t.go": 'package main\n\nimport v1 "vscratch/NAME/api1"\n\ntype Doer interface{ Do() string }\ntype App struct{ S string }\n\nfunc NewApp(u *v1.User, d Doer) *App { return &App{S: u.N + d.Do()} }\n',
+        "main.go": 'package main\n\nfunc main() { println(InitApp().S) }\n',
+        "wire.go": '//go:build wireinject\n\npackage main\n\nimport (\n\t"github.com/google/wire"\n\n\tv1 "vscratch/NAME/api1"\n\tsecond "vscratch/NAME/api2"\n)\n\nvar S = wire.NewSet(v1.NewUser, wire.Bind(new(Doer), new(*second.Impl)), second.NewImpl)\n\nfunc InitApp() *App {\n\twire.Build(S, NewApp)\n\treturn nil\n}\n'},
+    "struct_constructor_alias_clash": {
+        "api1/a.go": 'package v1\n\ntype User struct{ N string }\n\nfunc NewUser() *User { return &User{N: "u"} }\n',
+        "api2/a.go": 'package v1\n\ntype Impl struct{ S string }\n\nfunc (i *Impl) Do() string { return i.S }\nfunc NewImpl() *Impl     { return &Impl{S: "impl"} }\n',
+        "t.go": 'package main\n\nimport (\n\tv1 "vscratch/NAME/api1"\n\tsecond "vscratch/NAME/api2"\n)\n\ntype App struct {\n\tI *second.Impl\n\tU *v1.User\n}\n',
+        "main.go": 'package main\n\nfunc main() { a := InitApp(); println(a.U.N + a.I.S) }\n',
+        "wire.go": '//go:build wireinject\n\npackage main\n\nimport (\n\t"github.com/google/wire"\n\n\tv1 "vscratch/NAME/api1"\n\tsecond "vscratch/NAME/api2"\n)\n\nfunc InitApp() *App {\n\twire.Build(second.NewImpl, v1.NewUser, wire.Struct(new(App), "*"))\n\treturn nil\n}\n'},
     "interface_value_nested_selector": {
         "streams/streams.go": 'package streams\n\nimport "bytes"\n\nvar Std = struct{ Out *bytes.Buffer }{Out: bytes.NewBufferString("buf")}\n',
         "t.go": 'package main\n\nimport "fmt"\n\ntype App struct{ S string }\n\nfunc NewApp(w fmt.Stringer) *App { return &App{S: w.String()} }\n',
